@@ -123,7 +123,9 @@ func genC11(seed uint64) *Plan {
 	pr.AddPathTXProb = 0.9
 	pr.NPrefixes = 3
 	pr.RoleProb = 0.3
-	pr.W = map[string]int{"announce": 8, "withdraw": 7, "wait": 1}
+	pr.W = map[string]int{"announce": 8, "withdraw": 7, "wait": 1, "clone": 5}
+	// several neighbours of one AS (iBGP ones) so that paths can agree in everything but one attribute
+	pr.KindWeights = map[string]int{"ebgp": 2, "rs": 1, "ibgp": 3, "rr": 3}
 	pr.MinSteps, pr.MaxSteps = 15, 60
 	g := newGen("C11", seed, pr)
 	g.connectAll()
@@ -151,9 +153,19 @@ func genC06(seed uint64) *Plan {
 	pr := DefaultProfile()
 	pr.RoleProb = 0.5
 	pr.ImportKinds = []string{"accept", "reject", "rewrite"}
-	pr.W = map[string]int{"announce": 8, "withdraw": 2, "wait": 1, "import": 3}
+	pr.W = map[string]int{"announce": 8, "withdraw": 2, "wait": 1, "import": 3, "peer_notify": 1, "peer_close": 1, "reconnect": 1}
+	pr.ReconnectProb = 0.5
 	pr.IneligibleProb = 0.5
 	g := newGen("C06", seed, pr)
+	if g.r.Chance(0.4) {
+		// sessions with their own local AS: several local ASNs contribute to the VRF's loop detection
+		// and leave it again when their session goes down
+		for i := range g.plan.Peers {
+			if pc := &g.plan.Peers[i]; pc.AS != g.plan.DUT.LocalAS && g.r.Chance(0.6) {
+				pc.LocalAS = 65010 + uint32(i)
+			}
+		}
+	}
 	g.connectAll()
 	g.workload()
 	return g.plan
